@@ -365,7 +365,29 @@ def run(ctx, tier):
                             r_seed.violations.append(Violation('C19', 'C19.seed', b.path, 'seed', 'the seed is modified on its way to the core: %s' % fmt_terms(ts)[:80], loc=b.loc(bi, si)))
     if not found:
         r_seed.violations.append(Violation('C19', 'C19.seed', 'oxmpl-py', 'floor', 'no PlannerConfig construction found in the bindings'))
-    return [r_args, r_disp, r_loss, r_err, r_seed, r_sib]
+    # ---------------------------------------------------------------- forward
+    r_fwd = RuleResult('C19.forward', 'a wrapper method that delegates to the same-named core method does so on every path')
+    n_fw = 0
+    for b in bodies:
+        if b.kind != 'AssocFn' or b.impl_trait is not None or b.name in ('new', None):
+            continue
+        fn = ctx.fn(b)
+        same = [bi for bi, t in b.calls() if core_body_for(ctx, t['func'].get('path')) is not None and t['func'].get('name') == b.name and user_call(b, bi)]
+        if not same:
+            continue
+        n_fw += 1
+        stop = frozenset(same)
+        r = fn.reachable(0, stop=stop)
+        bad = [rb for rb in fn.return_blocks() if rb in r and rb not in stop]
+        r_fwd.inst('%s reaches the core %s on every path (%d call sites)' % (b.path, b.name, len(same)), ok=not bad, site=b.loc(0))
+        if bad:
+            r_fwd.violations.append(Violation(
+                'C19', 'C19.forward', b.path, b.name,
+                'the wrapper can return without calling the core %s it delegates to (an argument test of its own decides): for those '
+                'arguments the Python object and the core diverge' % b.name, loc=b.loc(bad[0])))
+    if n_fw < 15:
+        r_fwd.violations.append(Violation('C19', 'C19.forward', 'oxmpl-py', 'floor', 'only %d same-named delegations found (floor 15)' % n_fw))
+    return [r_args, r_disp, r_loss, r_err, r_seed, r_sib, r_fwd]
 
 
 def _lossless(b):
